@@ -123,6 +123,12 @@ class Hub:
         self.cast_between_ports = True
         self.split_mode = "plan"  # "plan" | "all"
         self.quiet = False  # True after t_quiet: no more faults
+        loop.on_add_reader = self._reader_added
+
+    def _reader_added(self, fd) -> None:
+        for ser in self.ports.values():
+            if ser.fd == fd and ser.rx:
+                ser.kick()
 
     def count(self, kind: str, n: int = 1) -> None:
         self.fault_counts[kind] = self.fault_counts.get(kind, 0) + n
